@@ -97,6 +97,8 @@ class Ctx:
         cmd += [module + ".tla"]
         env = dict(os.environ)
         jto = "-Djava.io.tmpdir=%s -Xss64m" % tmp
+        if heap:
+            jto += " -Xmx%s" % heap
         if dfs:
             jto += " -Dtlc2.tool.queue.IStateQueue=StateDeque"
         env["JAVA_TOOL_OPTIONS"] = jto
